@@ -134,7 +134,11 @@ impl Scenario for Resolve {
     fn gen(&self, run_seed: u64, tier: Tier) -> Value {
         let mut rng = Rng::new(run_seed);
         let o = opts_for(self.variant, &mut rng, tier);
-        let spec = gen_ws(&mut rng, &o);
+        let spec = if self.variant == "imports" && rng.chance(80) {
+            if rng.chance(500) { super::ws::diamond_ws(&mut rng) } else { super::ws::ring_ws(&mut rng) }
+        } else {
+            gen_ws(&mut rng, &o)
+        };
         let sim = SimParams::gen(&mut rng, 3000);
         let mut reopen = vec![];
         if rng.chance(300) {
@@ -159,7 +163,9 @@ impl Scenario for Resolve {
         let sb = Sandbox::acquire("res", inp.run_seed, inp.sandbox.as_deref().map(Path::new));
         let root = inp.spec.materialise(&sb.root());
         let model = Model::new(&inp.spec);
-        let toks = model.usage_tokens();
+        // queries are asked in a seeded order: memoised import walks are order-sensitive
+        let mut toks = model.usage_tokens();
+        Rng::new(inp.run_seed ^ 0x0bde).shuffle(&mut toks);
         let toks2 = toks.clone();
         let reopen = inp.reopen.clone();
         let spec2 = inp.spec.clone();
